@@ -193,6 +193,11 @@ fn hostile_mut(cx: &mut Ctx, rng: &mut Rng, d: &mut AutoCommit, p: &Pools) -> bo
         cx.count(&format!("argclass_obj_{oc}"));
         cx.count(&format!("argclass_heads_{hc}"));
         let mut t = d.clone();
+        if let Ok(dir) = std::env::var("VERIF_C37_DUMP") {
+            // replay aid: the document and arguments of the latest hostile call
+            let _ = std::fs::write(format!("{dir}/doc.bin"), d.clone().save());
+            let _ = std::fs::write(format!("{dir}/args.txt"), format!("{args}\nobj={o}\n"));
+        }
         match rng.below(30) {
             0 => call!(cx, "diff", args, t.diff(&h, &h2).len()),
             1 => call!(cx, "diff_obj", args, (t.diff_obj(&o, &h, &h2, true).map(|v| v.len()), t.diff_obj(&o, &h, &h2, false).map(|v| v.len()))),
